@@ -391,6 +391,18 @@ term("callee-mappingproxytype", "", "do v_ <- py_dict_get Z.eqb {0} {1}; Ok ({0}
 term("callee-int-pow", "", "Z.pow {0} {1}", [("a", Z), ("b", Z)], Z, [(a, b) for a in (-3, -1, 0, 1, 2, 7, 10) for b in (0, 1, 2, 5, 31)], lambda a, b: a ** b, callee="int ** int (non-literal exponent)",
      covers=["Z.pow"], note="exponents >= 0 only (0 ** 0 = 1 on both sides); for b < 0 Python yields a float, Z.pow 0: outside the idiom's domain, documented in specs/c15.py")
 
+def _combinations2(l):
+    from itertools import combinations
+
+    return list(combinations(l, 2))
+
+
+term("callee-itertools-combinations-2", "From QV Require Import Jssp.Encoder.", "combs2 {0}", [("l", List(Z))], List(Tup(Z, Z)),
+     [(l,) for l in ([], [1], [1, 2], [3, 1, 2], [1, 1], [2, 1, 2, 1], [5, 4, 3, 2, 1], list(range(7)), [0, 0, 0], [9, 8, 9])], _combinations2,
+     callee="itertools.combinations(l, 2)", covers=["Jssp.Encoder.combs2"],
+     note="spec c15 (preamble py_combinations2): the pairs (l[i], l[j]) with i < j in lexicographic order of the POSITIONS — empty and one-element lists give no pair, "
+          "equal elements at different positions are still paired, the order is by position not by value")
+
 # ================================================================================================ C04: f-string int pieces (idiom int-to-decimal-string)
 FS_IMPORTS = "From QV Require Import Evqe.Names Translate.C04Aux."
 try:  # the renderings the spec names TODAY (specs/c04.py fstring_int), not a copy of them
